@@ -321,14 +321,14 @@ def check_events(spec, obs, run_idx=0):
                 probs.append('node %s: on_node_start x%d, a node of a pipeline without recurrent subgraphs executes at most once'
                              % (nk, sum(1 for e in seq if e[2] == 'node_start')))
         # attempts vs node_complete events and value-after-complete
-        key = None
-        for idx, e in enumerate(trace):
-            if e[0] == 'start':
+        # every body start is preceded by node_start of that node (one pass: a livelocked run has thousands of events)
+        told = set()
+        for e in trace:
+            if e[0] == 'emit' and e[1] == m and e[2] == 'node_start' and e[3] is not None:
+                told.add(json.dumps(e[3]))
+            elif e[0] == 'start':
                 i = e[1]
-                nk = json.dumps(['n', i])
-                # every body start is preceded by node_start of that node, and by one failed node_complete per earlier attempt
-                starts_before = [t for t in trace[:idx] if t[0] == 'emit' and t[1] == m and t[3] is not None and json.dumps(t[3]) == nk]
-                if not any(t[2] == 'node_start' for t in starts_before):
+                if json.dumps(['n', i]) not in told:
                     probs.append('node %d body started before on_node_start' % i)
     return probs
 
